@@ -315,12 +315,31 @@ class Summaries:
                     else:
                         kinds.add('new')
                 elif val.k == 'var':
-                    # alias of another local/param: follow one step
+                    # alias of another local: follow one step.  A fresh object that
+                    # was stored into a dictionary and whose own reference is dropped
+                    # before the return is handed out borrowed (the dictionary keeps
+                    # it alive) - under either name
                     src = val.a[0]
-                    inc2 = lambda n, src=src, var=var: any(
-                        is_var(c.a[1][0], src) or is_var(c.a[1][0], var)
-                        for c in node_calls(n, 'Py_INCREF'))
-                    kinds.add('new')
+                    names_ = (src, var)
+                    stored2 = lambda n: any(
+                        len(c.a[1]) == 3 and any(is_var(c.a[1][2], x) for x in names_)
+                        for c in node_calls(n, 'PyDict_SetItem'))
+                    dropped2 = lambda n: any(
+                        any(is_var(c.a[1][0], x) for x in names_)
+                        for c in node_calls(n, 'Py_DECREF'))
+                    srcdefs = [(d2, v2) for d2, v2 in c_reaching(g, d, src)]
+                    fresh = bool(srcdefs) and all(
+                        v2 is not None and v2.k == 'call' and v2.a[0] in NEW
+                        for d2, v2 in srcdefs)
+                    # the store may precede the aliasing assignment (it is tested there)
+                    was_stored = fresh and all(
+                        g.must_pass_after(d2, lambda n: stored2(n) or n is d, target=r) and
+                        any(stored2(n) for n in g.nodes)
+                        for d2, v2 in srcdefs)
+                    if fresh and was_stored and g.must_pass_after(d, dropped2, target=r):
+                        kinds.add('borrowed')
+                    else:
+                        kinds.add('new')
                 else:
                     kinds.add('new')
         if not kinds:
@@ -452,7 +471,11 @@ class Borrow:
             dnodes = list({d.id: d for d in defs[var]}.values())
             for d in dnodes:
                 # protected once INCREF'd; killed by redefinition
-                def stop(n, var=var, d=d):
+                srcval = c_assigned(d).get(var)
+                srcfield = show(srcval) if srcval is not None and srcval.k in ('field', 'deref') \
+                    else None
+
+                def stop(n, var=var, d=d, srcfield=srcfield):
                     if n is d:
                         return False
                     if var in c_assigned(n):
@@ -460,6 +483,13 @@ class Borrow:
                     for c in node_calls(n, 'Py_INCREF') + node_calls(n, 'Py_XINCREF'):
                         if is_var(c.a[1][0], var):
                             return True
+                    if srcfield is not None and n.e is not None:
+                        # `x = self->f; self->f = NULL;`: x owns what the field held
+                        for x in n.e.walk():
+                            if x.k == 'assign' and x.a[0] == '=' and x.a[1] is not None and \
+                                    show(x.a[1]) == srcfield and x.a[2] is not None and \
+                                    x.a[2].k == 'null':
+                                return True
                     return False
                 def null_edge(n, lab, m, var=var):
                     # leaving a test along the edge on which `var` is NULL: the
@@ -497,6 +527,10 @@ class Borrow:
                     # use in the callback node itself (passed to the callee)
                     for c, tier in cb:
                         if any(mentions(a, var) for a in c.a[1]) and tier == 1:
+                            if isinstance(c.a[0], str) and c.a[0] in self.u.funcs and all(
+                                    self.callee_owns(c.a[0], j) for j, a in enumerate(c.a[1])
+                                    if mentions(a, var)):
+                                continue
                             findings.append(dict(
                                 kind='passed-to-callback', fn=fname, var=var,
                                 tier=1, defined=show(d.e), line=cnode.line,
@@ -537,6 +571,32 @@ class Borrow:
             k = (fd['kind'], fd['var'], fd['tier'])
             uniq.setdefault(k, fd)
         return list(uniq.values()), sorted(vvars)
+
+    def callee_owns(self, name, j):
+        """the static function takes its own reference to parameter j before
+        anything in it can run Python code (Py_INCREF(param) lies on every path
+        from its entry to every may-run-Python call, DECREFs included)"""
+        memo = self.__dict__.setdefault('_owns', {})
+        if (name, j) in memo:
+            return memo[(name, j)]
+        f = self.u.funcs[name]
+        params = [p for p, _t in f.params]
+        ok = False
+        if j < len(params):
+            pn = params[j]
+            g = ccfg(f)
+
+            def inc(m):
+                return any(c.a[1] and is_var(c.a[1][0], pn) for c in
+                           node_calls(m, 'Py_INCREF') + node_calls(m, 'Py_XINCREF'))
+            reach = set(g.reach(g.entry, avoid=inc)) | {g.entry.id}
+            ok = any(inc(m) for m in g.nodes)
+            for m in g.nodes:
+                if m.id in reach and not inc(m) and self.callbacks(m):
+                    # a callback (tier 1 or the hashing tier) before owning it
+                    ok = False
+        memo[(name, j)] = ok
+        return ok
 
     # -- B8: hashing a key into a dictionary that is only borrowed ---------------
     def hashes_into_param(self):
@@ -604,7 +664,15 @@ class Borrow:
                             return True
                         return any(is_var(c.a[1][0], var) for c in
                                    node_calls(n, 'Py_INCREF') + node_calls(n, 'Py_XINCREF') if c.a[1])
-                    ids |= set(g.reach(d, avoid=stop))
+                    inner = set(g.reach(d, avoid=stop))
+                    ids |= inner
+                    # a node that rebinds the local still evaluates its right-hand
+                    # side with the old, borrowed value (`cache = _subcache(cache, name)`)
+                    for n in g.nodes:
+                        if (n.id in inner or n is d) and True:
+                            for m, lab in n.succ:
+                                if var in c_assigned(m) and m is not d:
+                                    ids.add(m.id)
             unprot[var] = ids
         out = []
         for n in g.nodes:
@@ -621,11 +689,12 @@ class Borrow:
                         out.append(dict(fn=fname, dict_expr='self->' + a.a[1], call=show(c)[:90],
                                         line=n.line, how='volatile field passed unowned'))
                     elif a.k == 'var' and a.a[0] in vvars and n.id in unprot.get(a.a[0], ()):
-                        out.append(dict(fn=fname, dict_expr=a.a[0], call=show(c)[:90], line=n.line,
-                                        how='local borrowed out of the caches, not yet owned'))
+                        out.append(dict(fn=fname, dict_expr='local', call=show(c)[:90], line=n.line,
+                                        how='local `%s` borrowed out of the caches, not yet owned'
+                                            % a.a[0]))
         uniq = {}
         for o in out:
-            uniq.setdefault((o['fn'], o['dict_expr'], o['call']), o)
+            uniq.setdefault((o['fn'], o['dict_expr']), o)
         return list(uniq.values())
 
     def callbacks(self, node, exclude_var=None):
@@ -698,6 +767,7 @@ class Balance:
             unchecked = {}   # var -> node where a NEW result was bound, untested
             none_alias = set()
             self.alias = {}
+            self.falias = {}
             self.held = set()
             self.params = set(params)
             self.rebound = set()
@@ -929,9 +999,16 @@ class Balance:
                 tgt, val = E('var', x.a[0]), x.a[2]
             if tgt is None:
                 continue
-            if tgt.k == 'field':
+            if tgt.k in ('field', 'deref'):
                 if val is not None and val.k == 'var' and st.get(val.a[0]) == 'owned':
                     st[val.a[0]] = 'moved'
+                if val is not None and val.k == 'null':
+                    # `x = self->f; self->f = NULL;`: the local takes over the
+                    # reference the field held (Py_CLEAR spelled by hand)
+                    for w, src in list(getattr(self, 'falias', {}).items()):
+                        if src == show(tgt) and st.get(w) == 'borrowed':
+                            st[w] = 'owned'
+                            self.falias.pop(w, None)
                 continue
             if tgt.k != 'var':
                 continue
@@ -992,3 +1069,7 @@ class Balance:
                 st[v] = 'borrowed'
             else:
                 st[v] = 'borrowed'
+                if val.k in ('field', 'deref'):
+                    if not hasattr(self, 'falias'):
+                        self.falias = {}
+                    self.falias[v] = show(val)
